@@ -1686,6 +1686,7 @@ class Chemical:
         H_ref = self.H_ref
         Tc = self._Tc
         single_phase = self._locked_state
+        if single_phase: phase_ref = single_phase # Reference state does not matter because phase will not change
         if isinstance(Cn, PhaseHandle):
             Cn_s = Cn.s
             Cn_l = Cn.l
